@@ -144,7 +144,7 @@ def run(binary, steps, env=None, settle=3.0, final_stop=True):
                     lines = lines[:len(lines) - 1 - lines[::-1].index("readyok")]
                 main = [l for l in lines if l.startswith("error") or l.startswith("info time") or l.startswith("id ") or l == "uciok"
                         or l.startswith("Hash:") or l.startswith("Fen:")]
-                ev["refused"] = any(l.startswith("error: search is still running") for l in main)
+                ev["refused"] = any(l.startswith("error") and "still running" in l for l in main)
                 ev["error"] = next((l for l in main if l.startswith("error")), "")
                 for l in main:
                     m = re.match(r"info time (\d+)", l)
